@@ -158,7 +158,7 @@ pub fn check(c: &Case, obs: &mut Obs) -> Result<(), String> {
 /// complete enumeration: bases x operator shapes x bounds^k  x  base relations x versions
 fn enumerate(tier: Tier) -> Box<dyn Iterator<Item = Case>> {
     let bounds: Vec<&'static str> = match tier {
-        Tier::Quick => vec!["", "1", "1.0nb1", "2", "0rc1"],
+        Tier::Quick => vec!["", "1", "1.0", "1.0nb1", "2", "0rc1"],
         Tier::Thorough => BOUNDS.to_vec(),
     };
     let bases: Vec<&'static str> = match tier {
@@ -166,7 +166,7 @@ fn enumerate(tier: Tier) -> Box<dyn Iterator<Item = Case>> {
         Tier::Thorough => BASES.to_vec(),
     };
     let versions: Vec<&'static str> = match tier {
-        Tier::Quick => vec!["", "1", "1.0nb1", "1.0rc1", "2", "3", "0rc1", "alpha"],
+        Tier::Quick => vec!["", "1", "1.0", "1.0.0", "1.0nb1", "1.0rc1", "2", "3", "0rc1", "alpha"],
         Tier::Thorough => vec!["", "0", "1", "1.0", "1.0nb1", "1.0rc1", "1.5", "2", "2.0beta1", "10", "3", "0rc1", "alpha", "0.0pre3", "nb2"],
     };
     // operator shapes: 0, 1, 2 and 3 operators
@@ -252,7 +252,7 @@ pub fn check_real(c: &Case, obs: &mut Obs) -> Result<(), String> {
         obs.excluded = true;
         return Ok(());
     };
-    if p.contains(['{', '}']) || crate::models::dewey::longest_digit_run(p) > 18 || crate::models::dewey::longest_digit_run(n) > 18 {
+    if p.contains(['{', '}']) || !crate::models::dewey::numbers_in_domain(p) || !crate::models::dewey::numbers_in_domain(n) {
         obs.excluded = true;
         return Ok(());
     }
@@ -306,7 +306,15 @@ fn free_strategy(_t: Tier) -> BoxedStrategy<Case> {
         prop::collection::vec(vergen::edit(), 0..=2),
         any::<u16>(),
     )
-        .prop_map(|(base, ops, rel, ver, edits, sel)| {
+        .prop_map(|(base, mut ops, rel, ver, edits, sel)| {
+            // now and then both bounds are the same text, or one bound is very long
+            if ops.len() == 2 && sel % 8 == 3 {
+                ops[1].1 = ops[0].1.clone();
+            }
+            if sel % 64 == 5 {
+                let n = 200 + (sel as usize >> 6) % 400;
+                ops[0].1.insert(0, if n % 2 == 0 { "0." } else { "1." }.repeat(n));
+            }
             let mut pattern = base.clone();
             for (o, b) in &ops {
                 pattern.push_str(OPTXT[*o]);
@@ -335,7 +343,7 @@ fn free_strategy(_t: Tier) -> BoxedStrategy<Case> {
 /// compile agreement as in `check`, match verdicts with the KF-1 leniency of `check_real`
 pub fn check_free(c: &Case, obs: &mut Obs) -> Result<(), String> {
     let (p, n) = (c.pattern.as_str(), c.name.as_str());
-    if p.contains(['{', '}']) || crate::models::dewey::longest_digit_run(p) > 18 || crate::models::dewey::longest_digit_run(n) > 18 {
+    if p.contains(['{', '}']) || !crate::models::dewey::numbers_in_domain(p) || !crate::models::dewey::numbers_in_domain(n) {
         obs.excluded = true;
         return Ok(());
     }
